@@ -1,7 +1,7 @@
 // unit chain -- ChainStorage::{get_block, verify, max_height} (chain.rs), ChainIndex::{get,
 //   max_height, max_height_by_blk} (index.rs), BlkFile::{open, close, read_block} (blkfile.rs),
 //   Block::verify_merkle_root (block.rs)
-//@unit props=C03,C09,C17 safety=C03
+//@unit props=C03,C09,C12,C17 safety=C03
 use vstd::prelude::*;
 verus! {
 global size_of usize == 8;
@@ -264,7 +264,9 @@ impl ChainStorage {
             old(self).wf(),
             old(self).verify && height > 0 ==> old(self).chain_index.present().contains((height - 1) as u64),
 //@include contracts/get_block_driver.inc
-            final(self).coin == old(self).coin, final(self).verify == old(self).verify,
+            //# C12:coin_parameters_do_not_change_between_blocks   (the AuxPoW decision depends on the block's own version only)
+            final(self).coin == old(self).coin,
+            final(self).verify == old(self).verify,
             r is Ok ==> final(self).wf(),
             //# C03:unknown_file_number_is_an_error
             old(self).chain_index.present().contains(height)
